@@ -56,7 +56,9 @@ RULE = ('One case = (a) "text torture": a generated structure whose state names,
         'modulo surrounding whitespace), == in both directions when the strings carry no surrounding whitespace, second round '
         'trip a fixed point; (b) "behaviour": a generated executable chart with torture names and probe code, original and '
         're-import driven in lock-step on a random history; (c) the shipped YAML charts. Non-trivial = distinct charts '
-        'containing >= 1 torture string and >= 1 of {history, orthogonal, contract, priority != 0}.')
+        'containing >= 1 torture string and >= 1 of {history, orthogonal, contract, priority != 0}.  The torture alphabet includes the characters '
+        'YAML treats as line breaks or may not write verbatim; an exported statechart is edited (name swap) and exported again; user '
+        'subclasses of the model classes; round trips through files.')
 ASSUMPTIONS = ['characters YAML cannot carry without escaping rules of its own (C0/C1 controls other than \\n \\t, U+2028/2029, BOM, '
                'surrogates, \\r) are excluded; event names carry no surrounding whitespace; code strings are non-empty after stripping']
 REQUIRED_COUNTERS = ['roundtrips_after_editing_an_exported_statechart', 'charts_with_user_subclasses', 'roundtrips_through_existing_file', 'yaml_1_1_document_imported_before', 'roundtrips', 'fields_compared', 'eq_checks', 'second_roundtrips', 'behaviour_steps_compared',
